@@ -79,6 +79,9 @@ pub use bucket::NodeStatus;
 pub use entry::*;
 use rand::RngExt;
 use smallvec::SmallVec;
+#[cfg(libp2p_verif)]
+use libp2p_core::verif_clock::Instant;
+#[cfg(not(libp2p_verif))]
 use web_time::Instant;
 
 /// Maximum number of k-buckets.
@@ -336,6 +339,14 @@ where
         } else {
             0
         }
+    }
+}
+
+#[cfg(libp2p_verif)]
+impl<TKey, TVal> KBucketsTable<TKey, TVal> {
+    /// Verification hook: read-only view of the buckets (does not apply pending entries).
+    pub(crate) fn verif_buckets(&self) -> &[KBucket<TKey, TVal>] {
+        &self.buckets
     }
 }
 
